@@ -13,6 +13,10 @@ Arguments N.eqb : simpl never.
 
 Definition no_err (outs : list kout) : bool := forallb (fun o => negb (is_err o)) outs.
 
+Lemma krun_cons ka s e r :
+  krun ka s (e :: r) = let (s1, o1) := kstep ka s e in let (s2, o2) := krun ka s1 r in (s2, o1 ++ o2).
+Proof. reflexivity. Qed.
+
 (** PINGREQs at d, d + ka, ..., d + (n-1) ka *)
 Fixpoint pings (d ka : N) (n : nat) : list kout :=
   match n with O => [] | S m => PingReqAt d :: pings (d + ka) ka m end.
@@ -25,12 +29,12 @@ Proof.
   induction tr as [| e tr IH]; intros s d s' outs Hka Hd Hp Hr Hn.
   - cbn in Hr. inversion Hr. subst. exists O. split; [reflexivity|]. rewrite Hd. f_equal. lia.
   - cbn [prompt] in Hp. apply andb_true_iff in Hp. destruct Hp as [Hpe Hp].
-    cbn [krun] in Hr. destruct (kstep ka s e) as [s1 o1] eqn:E1. destruct (krun ka s1 tr) as [s2 o2] eqn:E2.
+    rewrite krun_cons in Hr. destruct (kstep ka s e) as [s1 o1] eqn:E1. destruct (krun ka s1 tr) as [s2 o2] eqn:E2.
     inversion Hr. subst s' outs. clear Hr. cbn [fst] in Hp.
     unfold no_err in Hn. rewrite forallb_app in Hn. apply andb_true_iff in Hn. destruct Hn as [Hn1 Hn2].
     unfold prompt_ev in Hpe. rewrite Hd in Hpe.
     assert (Hcase : (o1 = [] /\ deadline s1 = Some d) \/ (o1 = [PingReqAt d] /\ deadline s1 = Some (d + ka))).
-    { destruct e; cbn [kstep time_of] in E1, Hpe.
+    { destruct e; unfold kstep in E1; cbn [kstep_gen andb time_of] in E1, Hpe.
       - rewrite Hd in E1. inversion E1. subst. left. auto.
       - rewrite Hd in E1. destruct (N.leb_spec d t).
         + assert (t = d) by lia. subst t. unfold kping in E1. cbn [coll cpc await deadline] in E1.
@@ -58,7 +62,7 @@ Theorem ka_period ka c tr s' outs : 0 < ka ->
   exists n, outs = pings (c + ka) ka n /\ deadline s' = Some (c + ka + N.of_nat n * ka).
 Proof.
   intros Hka Hp Hr Hn. apply (period_gen ka tr (fst (kstep ka kinit (Connect c))) (c + ka) s' outs Hka); auto.
-  cbn [kstep kinit deadline fst]. destruct (N.eqb_spec ka 0); [lia|reflexivity].
+  unfold kstep. cbn [kstep_gen andb kinit deadline fst]. destruct (N.eqb_spec ka 0); [lia|reflexivity].
 Qed.
 
 (** ---- detection *)
@@ -74,35 +78,35 @@ Proof.
   induction tr as [| e tr IH]; intros s d s' outs Hd Ha Hp Hnp Hin Hr; [destruct Hin|].
   cbn [prompt] in Hp. apply andb_true_iff in Hp. destruct Hp as [Hpe Hp].
   cbn [existsb] in Hnp. apply orb_false_iff in Hnp. destruct Hnp as [Hne Hnp].
-  cbn [krun] in Hr. destruct (kstep ka s e) as [s1 o1] eqn:E1. destruct (krun ka s1 tr) as [s2 o2] eqn:E2.
+  rewrite krun_cons in Hr. destruct (kstep ka s e) as [s1 o1] eqn:E1. destruct (krun ka s1 tr) as [s2 o2] eqn:E2.
   inversion Hr. subst s' outs. clear Hr. cbn [fst] in Hp.
   unfold prompt_ev in Hpe. rewrite Hd in Hpe.
   assert (Hfire : forall t, e = Tick t -> d <= t ->
             exists rest, o1 ++ o2 = ErrAwait d :: rest \/ (o1 ++ o2 = ErrCollision d :: rest /\ coll s = true)).
   { intros t -> Hle. cbn [time_of] in Hpe. assert (t = d) by lia. subst t.
-    cbn [kstep] in E1. rewrite Hd in E1. destruct (N.leb_spec d d); [|lia].
+    unfold kstep in E1; cbn [kstep_gen andb] in E1. rewrite Hd in E1. destruct (N.leb_spec d d); [|lia].
     unfold kping in E1. cbn [coll cpc await deadline] in E1. rewrite Ha in E1.
     destruct (coll s) eqn:Ec; cbn [andb] in E1.
     - destruct (2 <=? cpc s + 1); inversion E1; subst; eexists; [right|left]; cbn [app]; auto.
     - inversion E1. subst. eexists. left. reflexivity. }
   destruct e; cbn [is_pingresp] in Hne; try discriminate.
-  - (* Connect *) cbn [kstep] in E1. rewrite Hd in E1. inversion E1. subst.
+  - (* Connect *) unfold kstep in E1; cbn [kstep_gen andb] in E1. rewrite Hd in E1. inversion E1. subst.
     destruct Hin as [Hin | Hin]; [discriminate|].
     destruct (IH (mkK (Some d) (await s) (coll s) (cpc s)) d s2 o2 eq_refl Ha Hp Hnp Hin E2) as [rest [Ho | [Ho Hc]]]; exists rest; cbn [app]; [left; exact Ho|right].
     split; [exact Ho|]. cbn [coll existsb is_parked] in *. exact Hc.
   - (* Tick *) destruct (N.leb_spec d t) as [Hle | Hlt].
     + destruct (Hfire t eq_refl Hle) as [rest [Ho | [Ho Hc]]]; exists rest; [left; exact Ho|right; auto].
-    + cbn [kstep] in E1. rewrite Hd in E1. destruct (N.leb_spec d t); [lia|]. inversion E1. subst.
+    + unfold kstep in E1; cbn [kstep_gen andb] in E1. rewrite Hd in E1. destruct (N.leb_spec d t); [lia|]. inversion E1. subst.
       destruct Hin as [Hin | Hin]; [inversion Hin; lia|].
       destruct (IH _ d s2 o2 Hd Ha Hp Hnp Hin E2) as [rest [Ho | [Ho Hc]]]; exists rest; cbn [app]; [left; exact Ho|right].
       split; [exact Ho|]. cbn [existsb is_parked]. exact Hc.
-  - (* Other *) cbn [kstep] in E1. inversion E1. subst. destruct Hin as [Hin | Hin]; [discriminate|].
+  - (* Other *) unfold kstep in E1; cbn [kstep_gen andb] in E1. inversion E1. subst. destruct Hin as [Hin | Hin]; [discriminate|].
     destruct (IH _ d s2 o2 Hd Ha Hp Hnp Hin E2) as [rest [Ho | [Ho Hc]]]; exists rest; cbn [app]; [left; exact Ho|right].
     split; [exact Ho|]. cbn [existsb is_parked]. exact Hc.
-  - (* Parked *) cbn [kstep] in E1. inversion E1. subst. destruct Hin as [Hin | Hin]; [discriminate|].
+  - (* Parked *) unfold kstep in E1; cbn [kstep_gen andb] in E1. inversion E1. subst. destruct Hin as [Hin | Hin]; [discriminate|].
     destruct (IH (mkK (deadline s) (await s) true (cpc s)) d s2 o2 Hd Ha Hp Hnp Hin E2) as [rest [Ho | [Ho Hc]]]; exists rest; cbn [app]; [left; exact Ho|right].
     split; [exact Ho|]. right. reflexivity.
-  - (* Resolved *) cbn [kstep] in E1. inversion E1. subst. destruct Hin as [Hin | Hin]; [discriminate|].
+  - (* Resolved *) unfold kstep in E1; cbn [kstep_gen andb] in E1. inversion E1. subst. destruct Hin as [Hin | Hin]; [discriminate|].
     destruct (IH (mkK (deadline s) (await s) false 0) d s2 o2 Hd Ha Hp Hnp Hin E2) as [rest [Ho | [Ho Hc]]]; exists rest; cbn [app]; [left; exact Ho|right].
     split; [exact Ho|]. cbn [coll] in Hc. destruct Hc as [Hc | Hc]; [discriminate|]. right. cbn [existsb is_parked]. exact Hc.
 Qed.
@@ -144,7 +148,7 @@ Proof.
   - cbn [sorted] in Hs. apply andb_true_iff in Hs. destruct Hs as [Hse Hs].
     cbn [prompt] in Hp. apply andb_true_iff in Hp. destruct Hp as [Hpe Hp].
     cbn [existsb] in Hnp. apply orb_false_iff in Hnp. destruct Hnp as [Hne Hnp].
-    cbn [answered] in Ha. cbn [krun] in Hr.
+    cbn [answered] in Ha. rewrite krun_cons in Hr.
     destruct (kstep ka s e) as [s1 o1] eqn:E1. destruct (krun ka s1 tr) as [s2 o2] eqn:E2.
     apply andb_true_iff in Ha. destruct Ha as [Hao Ha].
     inversion Hr. subst s' outs. clear Hr. cbn [fst] in Hp.
@@ -157,7 +161,7 @@ Proof.
       refine (IH s1 s2 o2 Hc1 Hnp _ Hs Hp Ha E2).
       intros Ha1. destruct (Hinv (Haw Ha1)) as [d [Hd He]]. exists d. split; [congruence|].
       cbn [existsb] in He. destruct e; cbn [reply_before is_pingresp] in *; try discriminate; exact He. }
-    destruct e; cbn [is_parked] in Hne; try discriminate; cbn [kstep] in E1.
+    destruct e; cbn [is_parked] in Hne; try discriminate; unfold kstep in E1; cbn [kstep_gen andb] in E1.
     + (* Connect *) inversion E1. subst. cbn [app]. split; [reflexivity|].
       refine (IH _ s2 o2 _ Hnp _ Hs Hp Ha E2); [first [exact Hc | reflexivity]|]. cbn [await deadline]. intros Ha1. destruct (Hinv Ha1) as [d [Hd He]].
       exists d. rewrite Hd. split; [reflexivity|]. cbn [existsb reply_before] in He. exact He.
@@ -187,9 +191,9 @@ Theorem ka_zero tr : forall s s' outs, deadline s = None -> krun 0 s tr = (s', o
 Proof.
   induction tr as [| e tr IH]; intros s s' outs Hd Hr.
   - cbn in Hr. inversion Hr. subst. auto.
-  - cbn [krun] in Hr. destruct (kstep 0 s e) as [s1 o1] eqn:E1. destruct (krun 0 s1 tr) as [s2 o2] eqn:E2.
+  - rewrite krun_cons in Hr. destruct (kstep 0 s e) as [s1 o1] eqn:E1. destruct (krun 0 s1 tr) as [s2 o2] eqn:E2.
     assert (H1 : o1 = [] /\ deadline s1 = None).
-    { destruct e; cbn [kstep] in E1; rewrite ?Hd in E1; inversion E1; subst; auto. }
+    { destruct e; unfold kstep in E1; cbn [kstep_gen andb] in E1; rewrite ?Hd in E1; inversion E1; subst; auto. }
     destruct H1 as [Ho1 Hd1]. destruct (IH s1 s2 o2 Hd1 E2) as [Ho2 Hd2].
     inversion Hr. subst. auto.
 Qed.
@@ -198,11 +202,11 @@ Qed.
 Theorem connect_timeout tm h :
   (h = None \/ (exists x, h = Some x /\ tm < x)) -> poll_connect tm h = NetworkTimeout tm.
 Proof.
-  intros [-> | [x [-> Hx]]]; cbn [poll_connect]; [reflexivity|]. destruct (N.leb_spec x tm); [lia|reflexivity].
+  intros [-> | [x [-> Hx]]]; cbn [poll_connect]; [reflexivity|]. destruct (N.ltb_spec x tm); [lia|reflexivity].
 Qed.
 
-Theorem connect_in_time tm x : x <= tm -> poll_connect tm (Some x) = Connected x.
-Proof. intros H. cbn [poll_connect]. destruct (N.leb_spec x tm); [reflexivity|lia]. Qed.
+Theorem connect_in_time tm x : x < tm -> poll_connect tm (Some x) = Connected x.
+Proof. intros H. cbn [poll_connect]. destruct (N.ltb_spec x tm); [reflexivity|lia]. Qed.
 
 (** ---- CollisionTimeout is a different error and needs a parked collision *)
 Theorem collision_timeout_distinct ka tr : forall s s' outs t,
@@ -211,10 +215,10 @@ Proof.
   induction tr as [| e tr IH]; intros s s' outs t Hc Hnp Hr Hin.
   - cbn in Hr. inversion Hr. subst. destruct Hin.
   - cbn [existsb] in Hnp. apply orb_false_iff in Hnp. destruct Hnp as [Hne Hnp].
-    cbn [krun] in Hr. destruct (kstep ka s e) as [s1 o1] eqn:E1. destruct (krun ka s1 tr) as [s2 o2] eqn:E2.
+    rewrite krun_cons in Hr. destruct (kstep ka s e) as [s1 o1] eqn:E1. destruct (krun ka s1 tr) as [s2 o2] eqn:E2.
     assert (Eo : outs = o1 ++ o2) by (inversion Hr; reflexivity). rewrite Eo in Hin. clear Hr Eo. apply in_app_or in Hin.
     assert (H1 : coll s1 = false /\ ~ In (ErrCollision t) o1).
-    { destruct e; cbn [is_parked] in Hne; try discriminate; cbn [kstep] in E1.
+    { destruct e; cbn [is_parked] in Hne; try discriminate; unfold kstep in E1; cbn [kstep_gen andb] in E1.
       - inversion E1. subst. cbn. auto.
       - destruct (deadline s); [destruct (_ <=? _)|]; try (inversion E1; subst; cbn; auto; fail).
         unfold kping in E1. cbn [coll cpc await deadline] in E1. rewrite Hc in E1. cbn [andb] in E1.
@@ -259,6 +263,13 @@ Proof. vm_compute. split; reflexivity. Qed.
 Example ex_late_poll_shifts_period :
   prompt 1000 (fst (kstep 1000 kinit (Connect 0))) [Tick 1300; Tick 2300] = false /\
   snd (krun 1000 (fst (kstep 1000 kinit (Connect 0))) [Tick 1300; PingResp 1400; Tick 2000; Tick 2300]) = [PingReqAt 1300; PingReqAt 2300].
+Proof. vm_compute. split; reflexivity. Qed.
+
+(** F32 (v5, before the fix: commit 30fc7fa): the server assigns keep alive 0; the unguarded timer
+    fires at once, twice, and the fresh connection is reported dead — with the guard: no ping, no error *)
+Lemma v5_server_ka_zero_refuted :
+  snd (krun_v5_orig 0 kinit [Connect 0; Tick 0; Tick 0]) = [PingReqAt 0; ErrAwait 0]
+  /\ snd (krun 0 kinit [Connect 0; Tick 0; Tick 0; Tick 100000]) = [].
 Proof. vm_compute. split; reflexivity. Qed.
 
 (** ---- tie to M-CLIENT: [MqttState::outgoing_ping] is [kping] *)
